@@ -53,6 +53,11 @@ def check(prop, tier, seed):
         if r['identity'] == 'valid' and r['roots'] == 'right' and r['name'] in ('match', 'uri_match') and r['tls_cfg']:
             for ident in ('chain', 'chain_leaf_only'):
                 extra.append(dict(r, identity=ident, **{'class': 'chained_identity'}))
+    # a second connection from the same Endpoint, to a server that can resume the first one's session and negotiates another ALPN
+    for r in rows:
+        if (r['alpn'] == 'h2' and r['client_auth'] == 'none' and r['identity'] == 'none' and r['roots'] == 'right' and r['name'] == 'match' and r['tls_cfg']):
+            for a2 in ('h2', 'none', 'http/1.1'):
+                extra.append(dict(r, second_alpn=a2, **{'class': 'second_connection'}))
     rows = rows + extra
     presented = {'valid': [_digest(c) for c in _pem_ders('client_c.pem')], 'chain': [_digest(c) for c in _pem_ders('client_chain.pem')]}
     if len(presented['valid']) != 1 or len(presented['chain']) != 2:
